@@ -11,6 +11,7 @@ import multiprocessing as mp
 import random
 
 import common
+import sexp
 import gen_inputs as G
 from props import parsecommon as pc
 from props import pybcommon as pyb
@@ -104,6 +105,25 @@ def run(rep, tier, seed, replay=None, proof_ok=True):
                                       no_input=True)
                 else:
                     rep.bump('model_agrees')
+            # how the renderings of this module relate under the layout theorems (evidence, not a verdict):
+            # same skeleton = first step applies directly; same solid characters = related by opening / closing gaps
+            try:
+                lay = []
+                for style, text in res['renderings']:
+                    a = model.ask('layout', text)
+                    lay.append(sexp.loads(a[3:]) if a.startswith('ok ') else None)
+                if all(x is not None for x in lay):
+                    base_sk, base_ok = lay[0]
+                    for sk, ok in lay[1:]:
+                        rep.bump('pairs_total')
+                        if base_ok == 'T':
+                            rep.bump('pairs_strict_parse_answers')
+                            if sk == base_sk:
+                                rep.bump('pairs_same_skeleton_theorem_applies')
+                            elif sk.replace(' ', '') == base_sk.replace(' ', ''):
+                                rep.bump('pairs_same_solid_characters_gap_steps_needed')
+            except Exception:
+                rep.bump('layout_domain_query_failed')
             if res['outs']:
                 for (style, text), o in zip(res['renderings'][1:4], res['outs'][1:]):
                     for gen in ('pybind', 'matlab'):
